@@ -83,6 +83,13 @@ Definition case_tn (c : ccase) (callopts : bool) (calls : list call) : res (list
   in_graph (tools_invoke (kind_lookup (case_tdefs c callopts)) (h_inv (k_fail_args c) (k_outs c)) (h_str (k_fail_args c) (k_outs c))
                          (h_handler (k_handler c)) (seq 0 (List.length calls)) true calls).
 
+(* the same tools node run through Stream (Stream-mode runs): streams opened, merged tool 0's
+   stream first, then tool 1's, ... and read to the end (any complete interleaving gives the same
+   concatenation: Props/C18.v tools_node_streams_exactly) *)
+Definition case_tns (c : ccase) (callopts : bool) (calls : list call) : res (list string * list emitted) :=
+  tools_stream_frames (kind_lookup (case_tdefs c callopts)) (h_inv (k_fail_args c) (k_outs c)) (h_str (k_fail_args c) (k_outs c))
+                      (h_handler (k_handler c)) (seq 0 (List.length calls)) seq_sched calls.
+
 Definition case_executed (c : ccase) (callopts : bool) (calls : list call) : list call :=
   tools_executed (kind_lookup (case_tdefs c callopts)) (h_handler (k_handler c)) true calls.
 
@@ -132,7 +139,7 @@ Definition case_modifier (c : ccase) : list msg -> list msg :=
 
 Definition case_trace (c : ccase) (md : omode) (callopts : bool) : trace :=
   let rdn := nonempty (k_rd c) in
-  agent_run (case_tn c callopts) (fun n => mem_str n (k_rd c)) rdn
+  agent_run (case_tn c callopts) (case_tns c callopts) (fun n => mem_str n (k_rd c)) rdn
             (case_modifier c)
             (fun cl => match kind_lookup (case_tdefs c callopts) (c_name cl) with Some _ => true | None => false end)
             (if k_default_checker c then default_checker else exact_checker)
@@ -144,7 +151,7 @@ Definition case_trace (c : ccase) (md : omode) (callopts : bool) : trace :=
    WithRuntimeMaxSteps replaces the compiled limit, which for the engine model is the graph's g_max *)
 Definition case_engine_trace (c : ccase) (md : omode) (callopts : bool) : option trace :=
   let rdn := nonempty (k_rd c) in
-  engine_trace (case_tn c callopts) (fun n => mem_str n (k_rd c)) rdn
+  engine_trace (case_tn c callopts) (case_tns c callopts) (fun n => mem_str n (k_rd c)) rdn
             (case_modifier c)
             (fun cl => match kind_lookup (case_tdefs c callopts) (c_name cl) with Some _ => true | None => false end)
             (if k_default_checker c then default_checker else exact_checker)
